@@ -235,6 +235,9 @@ RES_MENU = [
 WORKER_MENU = {
     "C1": dict(CPU=1), "C2": dict(CPU=2), "C1G1": dict(CPU=1, GPU=1),
     "C2G1": dict(CPU=2, GPU=1), "C1Gid": dict(CPU=1, GPU__g0=1),
+    # one resource name split over two ids with unequal quantities: 'any' requests
+    # smaller than what the first id holds, and requests spanning both ids
+    "Cid21": dict(CPU__a=2, CPU__b=1),
 }
 
 
@@ -257,6 +260,7 @@ def s_res(policies, seed=0, full=False):
         cluster([WORKER_MENU["C2"], WORKER_MENU["C1Gid"]]),
         cluster([WORKER_MENU["C1"]], [WORKER_MENU["C2G1"]]),
         cluster([WORKER_MENU["C1Gid"]], [WORKER_MENU["C1G1"]]),
+        cluster([WORKER_MENU["Cid21"]]),
     ]
     ns = (1, 2, 3) if full else (1, 2)
     for n in ns:
@@ -344,9 +348,18 @@ def cond_templates(names=None):
 
 
 def s_cond(policies, seed=0, resolve_modes=(False, True), clusters=("1x1", "1x2", "2p"),
-           releases=("one", "two@0"), runtimes=(1, 2)):
+           releases=("one", "two@0"), runtimes=(1, 2), orders=("fwd", "rev")):
+    """`orders`: the order in which the nodes are *listed* in the workload file (the
+    loader accepts any); 'rev' registers children before their parents and later
+    conditionals before earlier ones."""
+    templates = []
     for tag, nodes in cond_templates():
-        names = [n["name"] for n in nodes]
+        templates.append((tag, nodes, nodes))
+        if "rev" in orders and not tag.startswith("if2 p=(0.25") \
+                and not tag.startswith("if2 p=(1.0"):
+            templates.append((tag + " listed=rev", list(reversed(nodes)), nodes))
+    for tag, nodes, fwd in templates:
+        names = [n["name"] for n in fwd]  # runtimes do not depend on the listing
         for rt_mode in runtimes:
             profiles = []
             for k, nm in enumerate(names):
@@ -459,6 +472,38 @@ def s_plan(policies, seed=0, max_n=3, with_cond=True, clusters=("1x1", "2w"),
                         releases=("one",), runtimes=(1,)):
             w["tag"] = "S-plan/" + w["tag"]
             yield w
+
+
+def s_adv(seed=0, max_n=3, bound=2, cap=1500, modes=None, clusters=("1x1", "2p"),
+          releases=("one", "two@1"), cancel=False):
+    """Worlds whose scheduler is the tape-driven adversary of vf/adv.py: every legal
+    decision sequence (bounded deviations from 'place now') over small DAGs."""
+    modes = modes or {
+        "plain": {},
+        "retract": {"retract": True},
+        "rtg+retract": {"retract": True, "rtg": True},
+    }
+    for n in range(1, max_n + 1):
+        names = names_for(n, seed)
+        for edges in dag_shapes(n):
+            strategies = [[strat(2 + (k % 2), CPU=1)] for k in range(n)]
+            for ck in clusters:
+                for rk in releases:
+                    wl = workload_from_dag(names, edges, strategies, RELEASES[rk],
+                                           (100, 100))
+                    for mk, mode in modes.items():
+                        adv = dict(mode, delays=[0, 1, 3], cancel=cancel)
+                        fl = {"scheduler": "EDF"}
+                        if mode.get("retract"):
+                            fl["retract_schedules"] = True
+                        if mode.get("rtg"):
+                            fl["release_taskgraphs"] = True
+                        yield mk_world(
+                            wl, CLUSTERS_CPU[ck], fl, seed, tape=[],
+                            tag=f"S-adv n={n} e={edges} c={ck} r={rk} m={mk}"
+                                f"{' +cancel' if cancel else ''}",
+                            adv=adv, tape_bound=bound, tape_cap=cap,
+                            tape_bounded_kinds=["choice", "random", "sched"])
 
 
 def count(gen):
